@@ -196,11 +196,11 @@ func (wtr *JSONWtr) container(lvl int) node.Node {
 func (wtr *JSONWtr) ident(p *node.Path) string {
 	var qualify bool
 	s := p.Meta.(meta.Identifiable).Ident()
-	thisMod := meta.OriginalModule(p.Meta)
+	thisMod := owningModule(p.Meta)
 	if p.Len() == 2 { // top-level
 		qualify = true
 	} else {
-		parentMod := meta.OriginalModule(p.Parent.Meta)
+		parentMod := owningModule(p.Parent.Meta)
 		qualify = (parentMod != thisMod)
 	}
 	if qualify && wtr.QualifyNamespace {
@@ -384,4 +384,18 @@ func findIdentity(t *meta.Type, ident string, depth int) *meta.Identity {
 		}
 	}
 	return nil
+}
+
+// owningModule is the module that defines m. A submodule has no name of its own
+// in instance data (RFC 7951 Sec 4): its definitions belong to the module it
+// belongs to.
+func owningModule(m meta.Meta) *meta.Module {
+	mod := meta.OriginalModule(m)
+	for {
+		owner, isSub := mod.Parent().(*meta.Module)
+		if !isSub || owner == nil {
+			return mod
+		}
+		mod = owner
+	}
 }
